@@ -392,6 +392,15 @@ def parse_operand(ts, ty, mod):
         return Operand("undef", None, ty)
     if t == "zeroinitializer":
         return Operand("int", 0, ty)
+    if t == "ptrtoint":
+        # constant expression  ptrtoint (<ptr type> <constant pointer> to iN)
+        ts.expect("(")
+        sty = parse_type(ts, mod)
+        src = parse_operand(ts, sty, mod)
+        ts.expect("to")
+        parse_type(ts, mod)
+        ts.expect(")")
+        return Operand("p2iconst", src, ty)
     if rty.kind == "int":
         return Operand("int", int(t), ty)
     if rty.kind in ("double", "float", "x86_fp80"):
